@@ -83,16 +83,27 @@ def probe_kron_order():
 
 
 # ------------------------------------------------------------------------------------ execution
+OFFSET_UNIT = [None]      # unit in which the constant offset of the current case is handed to Mpo (None: atomic units)
+
+
+def _offset_quantity(offset):
+    """the offset (a number in atomic units for the oracle) as the Quantity the case hands to the library"""
+    unit = OFFSET_UNIT[0]
+    if unit is None or offset == 0:
+        return Quantity(offset)
+    return Quantity(offset / Quantity(1.0, unit).as_au(), unit)
+
+
 def build(bs, terms, offset, algo, qn_size=1, via="terms"):
     ops = [L.make_op(t, qn_size) for t in terms]
     if via == "ham_terms":
         model = Model([L.make_basis(s) for s in bs], ops)
-        return Mpo(model, offset=Quantity(offset), algo=algo)
+        return Mpo(model, offset=_offset_quantity(offset), algo=algo)
     model = L.make_model(bs)
     if via == "opsum" and len(ops) > 1:
         h = len(ops) // 2
         ops = [OpSum(ops[:h])] + ops[h:]
-    return Mpo(model, ops, offset=Quantity(offset), algo=algo)
+    return Mpo(model, ops, offset=_offset_quantity(offset), algo=algo)
 
 
 def last_library_frame(e):
@@ -233,6 +244,8 @@ def features(case):
         f.append("multi-dof")
     if case["offset"] != 0:
         f.append("offset")
+        if case.get("offset_unit"):
+            f.append("offset-unit=" + case["offset_unit"])
     if case["cplx"]:
         f.append("complex")
     if case["qn_size"] == 2:
@@ -465,6 +478,9 @@ def search(run, rng, quick):
             run.count(f"generator-error:{type(e).__name__}")
             continue
         bs, terms = case["basis"], case["terms"]
+        # the offset is a Quantity: half of the non-zero offsets are given in another unit than atomic units
+        case["offset_unit"] = str(rng.choice(["eV", "meV", "cm^{-1}", "K", "ev", "cm-1"])) if (case["offset"] != 0 and rng.random() < 0.5) else None
+        OFFSET_UNIT[0] = case["offset_unit"]
         run.count("case:many-primary-operators" if many else ("case:d12-class" if d12 else f"case:mode={case['mode']}"))
         run.count(f"case:nsite={len(bs)}")
         run.count(f"case:nterms<={4 * ((len(terms) + 3) // 4)}")
